@@ -61,3 +61,15 @@ Theorem C04_loads_mirror : forall rho g (v dl r : v3 R),
   F' = M F /\ vcross (M r) F' = vopp (M (vcross r F)).
 Proof. intros. subst F F'. destruct v, dl, r. split; rcompute; apply V3_eq; ring. Qed.
 Print Assumptions C04_loads_mirror.
+
+(* ---------------------------------------------------------------------------------------------------------------------------------
+   The part of H_geom_mirror that concerns the general (Reid-Hunsaker) corrections is a theorem: for the reflected wing (sections in
+   reverse order, inbound and outbound nodes and their chords swapped, span coordinate measured from the other tip, span directions
+   still pointing left to right) every control point sees the mirror image of the effective lines and joints, in reverse order, with
+   the roles of the inbound and outbound lines exchanged.  numpy.gradient with edge_order=2 on the cumulative chord length is part of
+   the model; it needs at least three sections per wing, as numpy does. *)
+From MuxV Require Import Model.Reid Proofs.ReidP.
+Theorem C04_effective_lines_mirror : forall L (w : list (sec R)) (i : sec R), (3 <= length w)%nat ->
+  reid_row exp (rev (map (sec_mirror L) w)) (sec_mirror L i) = mirror4 (reid_row exp w i).
+Proof. exact reid_row_mirror. Qed.
+Print Assumptions C04_effective_lines_mirror.
